@@ -472,6 +472,17 @@ impl ZoneData {
         let h = self.nsec3_hash(n);
         self.nsec3_owners.iter().find(|(l, _)| *l == h).map(|(_, o)| lname(o))
     }
+    /// The NSEC3 record whose *next hashed owner* is the hash of `n` (an
+    /// existing name): the one in front of it in the chain; none when `n`'s
+    /// hash is the smallest of the zone.
+    fn nsec3_preceding(&self, n: &str) -> Option<String> {
+        let h = self.nsec3_hash(n);
+        let i = self.nsec3_owners.iter().position(|(l, _)| *l == h)?;
+        if i == 0 {
+            return None;
+        }
+        Some(lname(&self.nsec3_owners[i - 1].1))
+    }
     fn nsec3_covering(&self, n: &str) -> Option<String> {
         let h = self.nsec3_hash(n);
         let mut best: Option<&(String, SName)> = None;
@@ -837,7 +848,10 @@ impl World {
     /// the place of a covering one plus the wildcard denial; mode 2 - for the
     /// apex of a signed child zone, NODATA with the parent zone's SOA and the
     /// parent-side NSEC/NSEC3 of the delegation (NS, DS, no SOA bit: it says
-    /// nothing about the child's apex, RFC 4035 section 5.4).
+    /// nothing about the child's apex, RFC 4035 section 5.4); mode 3 - NSEC3
+    /// zones: NXDOMAIN with the record in front of the name in the hash chain
+    /// (its next hashed owner *is* the name's hash: the name is not inside
+    /// the interval, it ends it).
     pub fn forged_denial_of_existing(&self, qname: &str, qtype: Rtype, mode: u8) -> Option<Resp> {
         let truth = self.resolve(qname, qtype);
         let name = qname.to_ascii_lowercase();
@@ -846,6 +860,27 @@ impl World {
         }
         let mut r = Resp::default();
         match mode {
+            3 => {
+                let z = self.find_zone(&name, qtype);
+                if !z.signed || !z.has_owner(&name) || name == z.apex || !matches!(z.denial, Denial::Nsec3 { .. }) {
+                    return None;
+                }
+                let parent = parent_of(&name)?;
+                let pre = z.nsec3_preceding(&name)?;
+                r.rcode_nx = true;
+                z.push_set(&mut r.authority, &z.apex, Rtype::SOA, None);
+                // Closest encloser (the parent) matched, the "next closer"
+                // name - the query name - "covered", the wildcard covered.
+                if let Some(m) = z.nsec3_matching(&parent) {
+                    z.push_set(&mut r.authority, &m, Rtype::NSEC3, None);
+                }
+                z.push_set(&mut r.authority, &pre, Rtype::NSEC3, None);
+                if let Some(c) = z.nsec3_covering(&format!("*.{}", parent)) {
+                    if c != pre {
+                        z.push_set(&mut r.authority, &c, Rtype::NSEC3, None);
+                    }
+                }
+            }
             0 | 1 => {
                 let z = self.find_zone(&name, qtype);
                 if !z.signed || !z.has_owner(&name) {
